@@ -36,8 +36,29 @@ RELEVANT = {
 def signature(clause, d):
     """Stable abstract description: failing clause + the dimensions the command can depend on."""
     dims = " ".join("%s=%s" % (k, int(d[k]) if isinstance(d[k], bool) else d[k]) for k in RELEVANT[d["op"]])
-    return "%s|op=%s %s pins=[%s]%s" % (clause, d["op"], dims, ";".join(pin_label(p) for p in d["pins"]),
-                                       " via=cli" if d.get("cli") else "")
+    return "%s|op=%s %s pins=[%s]%s%s" % (clause, d["op"], dims, ";".join(pin_label(p) for p in d["pins"]),
+                                         answer_shapes(d), " via=cli" if d.get("cli") else "")
+
+
+def answer_shapes(d):
+    """How the device worded its wrong / negative answers in this scenario (part of the signature)."""
+    if d["op"] == "genpin":
+        return ""
+    out = []
+    rel = RELEVANT[d["op"]]
+    if d.get("echo") == "f":
+        out.append("echo:%s" % d.get("echo_shape"))
+    if d.get("onb_shape"):
+        out.append("onb:%s" % d["onb_shape"])
+    if "wipe" in rel and d.get("wipe") == "f":
+        out.append("wipe:%s" % d.get("wipe_how"))
+    if "unlock" in rel and d.get("unlock") == "f":
+        out.append("unlock:%s" % d.get("unlock_how"))
+    if "unlock" in rel and d.get("unlock") == "t" and d["plat"] == "ledger" and d.get("unlock_byte", 1) != 1:
+        out.append("unlockbyte:0x%02x" % d["unlock_byte"])
+    if "newpin" in rel and d.get("newpin") == "f":
+        out.append("newpin:%s" % d.get("newpin_how"))
+    return (" answers=[%s]" % ",".join(out)) if out else ""
 
 
 def relevant(d):
@@ -75,7 +96,8 @@ def random_scenario(rng):
         newpin=rng.choice(["t", "t", "t", "f"]),
         mode2=rng.choice(["signer", "signer", "signer"] + list(admin_ops.MODES)),
         keys=rng.choice(["t", "t", "t", "f"]), rng=rng, strict=rng.random() < 0.4,
-        cli=rng.random() < 0.3)
+        cli=rng.random() < 0.3,
+        shapes=({"onb": rng.choice(admin_ops.ONB_SHAPES)} if rng.random() < 0.08 else None))
 
 
 def execute(ctx, sc, tag, state):
@@ -154,11 +176,19 @@ def run(ctx):
         return t
 
     # 3a. every behaviour once, one seeded member of its PIN content class
+    n_fav = 0
     for k, bi in enumerate(order):
         b = behaviours[bi]
         sc = admin_ops.scenario_from_model(b["cfg"], b["env"], ctx.rng, boundary=(k % 3 == 0))
         record(sc, "b%d" % bi, "model-behaviour", b)
+        if b["outcome"] == "err" and "?" in b["env"].values():
+            # the same refusal as a single deviation: whatever the behaviour never looked at is set
+            # so that the command, had it wrongly gone on, would reach the seed / PIN step
+            sc = admin_ops.scenario_from_model(b["cfg"], b["env"], ctx.rng, favourable=True)
+            record(sc, "f%d" % bi, "model-behaviour, rest favourable", b)
+            n_fav += 1
     res.coverage["behaviours_replayed"] = len(order)
+    res.coverage["refusals_replayed_with_rest_favourable"] = n_fav
     # 3b. a seed-selected subset again, through the command-line front end (argparse builds the options)
     n_cli = ctx.pick(400, len(order))
     for bi in order[:n_cli]:
@@ -188,6 +218,23 @@ def run(ctx):
     res.coverage["pin_decisive_behaviours"] = len(decisive)
     res.coverage["pin_members_per_class"] = {c: len(v) for c, v in sorted(admin_ops.PIN_MEMBERS.items())}
     res.coverage["pin_decisive_member_runs"] = n_members
+    # 3c'. behaviours whose only deviation is a wrong / negative device answer gating seed or PIN (echo,
+    #      is_onboarded, WIPE / SGX_ONBOARD ack, unlock, new PIN): EVERY shape of that answer, everything
+    #      else favourable; Ledger behaviours that unlocked: every non-canonical positive answer
+    n_shapes, shape_kinds = 0, {}
+    for bi, b in enumerate(behaviours):
+        for si, sh in enumerate(admin_ops.deviation_shapes(b)):
+            vias = [False] + ([True] if (ctx.pick(False, True) or (bi + si) % 4 == 0) else [])
+            for cli in vias:
+                sc = admin_ops.scenario_from_model(b["cfg"], b["env"], ctx.rng, favourable=True, shapes=sh)
+                sc.desc["cli"] = cli
+                record(sc, "a%d_%d" % (bi, si), "answer-shape behaviour %s%s" % (
+                    sh, " via cli" if cli else ""), b)
+                n_shapes += 1
+                key = "%s:%s" % next(iter(sh.items()))
+                shape_kinds[key] = shape_kinds.get(key, 0) + 1
+    res.coverage["answer_shape_runs"] = n_shapes
+    res.coverage["answer_shapes_run"] = dict(sorted(shape_kinds.items()))
     res.coverage["model_drift"] = drift["n"]
     if drift["samples"]:
         res.coverage["model_drift_samples"] = core._jsonable(drift["samples"])
